@@ -66,7 +66,7 @@ def val_coq(v, nobj):
 def hid(h, nobj): return nobj if h == 'Z' else h
 
 
-def olist(hs, nobj): return nlist(sorted(hid(h, nobj) for h in hs))
+def olist(hs, nobj): return nlist(sorted(set(hid(h, nobj) for h in hs)))
 
 
 def snapshot_coq(snap, facts):
